@@ -374,10 +374,39 @@ def check_scenario(sc, scratch, stats=None):
                                                     'other': b if b[0] == 'error' else {'records': b[0][:6], 'header': b[1]}, 'a_names': a_names, 'A': A, 'B': B})
 
 
+def fixed_scenarios():
+    """Deterministic scenarios: bounds combined with an inner join whose first input records have no partner, whole-table aggregates under a bound,
+    DISTINCT over values that CSV writers rewrite - the places where a back-end specific shortcut would cut the input too early."""
+    F = lambda t, i: qgen.field_expr(t, i, 'aN', None)
+    A = [['x', '1'], ['y', '2'], ['k1', '3'], ['k2', '4'], ['k1', '5'], ['k2', '6']]
+    B = [['k1', 'p'], ['k2', 'q']]
+    an, bn = ['id', 'n'], ['j_id', 'j_v']
+    J = lambda kind: {'kind': kind, 'pairs': [{'l': {'f': {'py': 'a1', 'js': 'a1', 'idx': 0}}, 'r': {'f': {'py': 'b1', 'js': 'b1', 'idx': 0}}, 'eq': '==', 'swap': False}], 'table': 'b', 'and': 'and'}
+    out = []
+    for kind in ('JOIN', 'INNER JOIN'):
+        for n in (1, 2, 3):
+            for form in ('TOP', 'LIMIT'):
+                out.append({'A': A, 'B': B, 'a_names': an, 'b_names': bn, 'q': {'type': 'select', 'items': [{'k': 'expr', 'e': F('a', 0)}, {'k': 'expr', 'e': F('b', 1)}], 'join': J(kind), 'top': {'n': n, 'form': form}}})
+    for n in (1, 2, 5):
+        out.append({'A': A, 'B': None, 'a_names': an, 'b_names': None, 'q': {'type': 'select', 'items': [{'k': 'agg', 'fn': 'COUNT', 'sp': 'COUNT', 'star': True, 'startext': '*'}], 'group': None, 'join': None, 'top': {'n': n, 'form': 'LIMIT'}}})
+        out.append({'A': A, 'B': None, 'a_names': an, 'b_names': None, 'q': {'type': 'select', 'items': [{'k': 'expr', 'e': F('a', 0)}], 'join': None, 'distinct': 'distinct', 'top': {'n': n, 'form': 'TOP'}}})
+    out.append({'A': A, 'B': None, 'a_names': an, 'b_names': None, 'q': {'type': 'select', 'items': [{'k': 'expr', 'e': qgen.mk('len(a1)', None, 'int')}], 'join': None, 'distinct': 'distinct'}})
+    return out
+
+
 def shard(shard, nshards, tier, seed, scratch):
     total = 1200 if tier == 'quick' else 12000
     stats = Stats()
     failures = run_hypothesis(st_scenario(), lambda c: check_scenario(c, scratch, stats), max(1, total // nshards), seed, shrink_budget=40 if tier == 'quick' else 400)
+    if not failures:
+        for i, sc in enumerate(fixed_scenarios()):
+            if i % nshards != shard:
+                continue
+            try:
+                check_scenario(sc, scratch, stats)
+            except Violation as v:
+                failures.append({'clause': 'fixed-' + v.clause, 'detail': v.detail, 'case': sc})
+                break
     return {'stats': stats.export(), 'failures': failures}
 
 
